@@ -18,6 +18,7 @@ Inductive case :=
 | SkCase (v : Z) (ser : string)
 | IdCase (v : Z) (ser : string)
 | HashCase (digest : string) (k : N) (hpoint sig negsig : string)    (* HashToPoint, Sign with a small key, Neg *)
+| MulCase (hpoint : string) (k : Z) (result : string)                 (* G1.ScalarMult(H, k) / Sign *)
 | TextSig (honest : string) (text : string) (err ok : bool)           (* Signature.SetHexString + VerifySig *)
 | TextPk (honest : string) (text : string) (err ok : bool)            (* Pubkey.SetHexString + VerifySig *)
 | TextScalar (text : string) (err : bool) (v : Z).                    (* Seckey / ID SetHexString on a fresh value *)
@@ -74,6 +75,10 @@ Definition chk_hash (d : string) (k : N) (hp sg ng : string) : bool :=
   bytes_eqb (g1_marshal H) (unhex hp) && sig_is_valid H &&
   bytes_eqb (g1_marshal S) (unhex sg) && bytes_eqb (g1_marshal (g1_neg S)) (unhex ng).
 
+(* the code's Jacobian double-and-add on a 256-bit scalar, then MakeAffine + Marshal *)
+Definition chk_mul (hp : string) (k : Z) (rs : string) : bool :=
+  let b := unhex hp in
+  bytes_eqb (g1_marshal (g1_scalar_mult k (G1Aff (take32 0 b) (take32 1 b)))) (unhex rs).
 Definition is_err {A} (r : res A) : bool := match r with Ok _ => false | Err _ => true end.
 Definition chk_scalar (text : string) (err : bool) (v : Z) : bool :=
   match scalar_set_hex text with
@@ -110,6 +115,7 @@ Definition check (c : case) : bool :=
   | SkCase v ser => chk_sk v ser
   | IdCase v ser => chk_id v ser
   | HashCase d k hp sg ng => chk_hash d k hp sg ng
+  | MulCase hp k rs => chk_mul hp k rs
   | TextSig h text err ok =>
       let hb := unhex h in
       match decode_hex_exact text 64 with
@@ -162,6 +168,7 @@ Definition check_fast (c : case) : bool :=
   | SkCase v ser => chk_sk v ser
   | IdCase v ser => chk_id v ser
   | HashCase d k hp sg ng => chk_hash d k hp sg ng
+  | MulCase hp k rs => chk_mul hp k rs
   | TextSig h text err ok =>
       let hb := unhex h in
       match decode_hex_exact text 64 with
@@ -225,10 +232,10 @@ Proof.
 Qed.
 
 (* a passing fast check is a passing direct check *)
-Opaque chk_zero chk_alg chk_sk chk_id chk_hash chk_scalar.
+Opaque chk_zero chk_alg chk_sk chk_id chk_hash chk_scalar chk_mul.
 Theorem check_fast_sound c : check_fast c = true -> check c = true.
 Proof.
-  destruct c as [h cd [err nl valid ser ok] | h cd ok | h cd perr ser ok | h sb ok | sk c ok | v ser | v ser | d k hp sg ng | h text err ok | h text err ok | text err v].
+  destruct c as [h cd [err nl valid ser ok] | h cd ok | h cd perr ser ok | h sb ok | sk c ok | v ser | v ser | d k hp sg ng | hp k rs | h text err ok | h text err ok | text err v].
   - cbn [check_fast check]. set (hb := unhex h). set (b := cand_bytes hb cd).
     intro H. apply andb_true_iff in H as [Hok H]. apply bytes_okb_spec in Hok.
     assert (Hh : bytes_ok hb) by apply unhex_ok.
@@ -247,6 +254,7 @@ Proof.
   - exact (fun H => H).
   - exact (fun H => H).
   - exact (fun H => H).
+  - exact (fun H => H).
   - cbn [check_fast check]. destruct (decode_hex_exact text 64) as [b|] eqn:E; [|exact (fun H => H)].
     destruct (decode_hex_exact_spec _ _ _ E) as (_ & _ & _ & _ & _ & _ & Hok).
     rewrite (sig_verdict_ok b (unhex h) Hok (unhex_ok h)). exact (fun H => H).
@@ -255,4 +263,4 @@ Proof.
     rewrite (pk_verdict_ok b (unhex h) Hok (unhex_ok h)). exact (fun H => H).
   - exact (fun H => H).
 Qed.
-Transparent chk_zero chk_alg chk_sk chk_id chk_hash chk_scalar.
+Transparent chk_zero chk_alg chk_sk chk_id chk_hash chk_scalar chk_mul.
